@@ -302,6 +302,383 @@ def accessor(e, is_base):
     return None
 
 
+
+# ---------------------------------------------------------------- loop-carrying handlers -> statement terms
+def raw_kids(n):
+    return n.get('inner', [])
+
+
+def is_ret_false(st):
+    st = st if st.get('kind') != 'CompoundStmt' or len(kids(st)) != 1 else kids(st)[0]
+    if st.get('kind') != 'ReturnStmt' or not kids(st):
+        return False
+    v = norm(kids(st)[0])
+    return v.get('kind') == 'CXXBoolLiteralExpr' and v.get('value') is False
+
+
+def op_call(e):
+    """(operator name, args) of an overloaded operator call"""
+    e = norm(e)
+    if e.get('kind') != 'CXXOperatorCallExpr':
+        return None, []
+    c = kids(e)
+    nm, _ = callee_name(e)
+    return nm, c[1:]
+
+
+class LoopTr:
+    """translation of one handler body with loops; `self` = Cast<T>(expr_) (comparator only), `other` = the parameter"""
+    def __init__(self, d, hasher):
+        self.d = d
+        self.hasher = hasher
+        self.param = params(d)[0]['id']
+        self.alias = None
+        self.ints = {}        # VarDecl id -> IExp text
+        self.args = {}        # VarDecl id -> (side, IExp)
+        self.iters = {}       # VarDecl id -> ('cur'|'end', side)
+        self.hashvar = None
+        self.charvar = None
+        self.in_loop = False
+
+    def err(self, msg):
+        raise TranslateError(msg)
+
+    # -- operands
+    def side(self, e):
+        e0 = e
+        e = norm(e)
+        if is_ref_to(e, self.param):
+            return 'other'
+        if not self.hasher and is_self(e0, self.alias):
+            return 'self'
+        return None
+
+    def iexp(self, e):
+        e = norm(e)
+        if e.get('kind') == 'IntegerLiteral':
+            return '(.lit %d)' % int(e['value'])
+        if e.get('kind') == 'DeclRefExpr' and e['referencedDecl'].get('id') in self.ints:
+            return self.ints[e['referencedDecl']['id']]
+        self.err('integer expression not understood')
+
+    def count_of(self, e, want_side):
+        mc = member_call(e)
+        return bool(mc and mc[1] in ('num_breakpoints', 'num_args') and not mc[3] and self.side(mc[2]) == want_side)
+
+    def arg_of(self, e):
+        """(side, IExp) if e denotes self.arg(ix) / other.arg(ix) (through casts, locals, *iterator)"""
+        e = norm(e)
+        if e.get('kind') == 'DeclRefExpr' and e['referencedDecl'].get('id') in self.args:
+            return self.args[e['referencedDecl']['id']]
+        if e.get('kind') == 'CallExpr' and callee_name(e)[0] == 'Cast' and len(kids(e)) == 2:
+            return self.arg_of(kids(e)[1])
+        mc = member_call(e)
+        if mc and mc[1] == 'arg' and len(mc[3]) == 1 and self.side(mc[2]):
+            return (self.side(mc[2]), self.iexp(mc[3][0]))
+        nm, a = op_call(e)
+        if nm == 'operator*' and len(a) == 1:
+            r = norm(a[0])
+            it = self.iters.get(r.get('referencedDecl', {}).get('id')) if r.get('kind') == 'DeclRefExpr' else None
+            if it and it[0] == 'cur':
+                return (it[1], '.idx')
+        return None
+
+    def pair(self, x, y, what):
+        a, b = what(x), what(y)
+        if a and b and a[0] == 'self' and b[0] == 'other' and a[1:] == b[1:]:
+            return a[1:]
+        return None
+
+    def dacc(self, e):
+        mc = member_call(e)
+        if mc and mc[1] in ('slope', 'breakpoint') and len(mc[3]) == 1 and self.side(mc[2]):
+            return (self.side(mc[2]), mc[1], self.iexp(mc[3][0]))
+        return None
+
+    # -- comparator conditions
+    def bexp(self, e):
+        e = norm(e)
+        k = e.get('kind')
+        if k == 'CXXBoolLiteralExpr' and e.get('value') is True:
+            return '.tru'
+        if k == 'BinaryOperator' and e.get('opcode') in ('||', '&&'):
+            l, r = kids(e)
+            return '(%s %s %s)' % ({'||': '.or', '&&': '.and'}[e['opcode']], self.bexp(l), self.bexp(r))
+        if k == 'UnaryOperator' and e.get('opcode') == '!':
+            return '(.not %s)' % self.bexp(kids(e)[0])
+        if k == 'BinaryOperator' and e.get('opcode') in ('!=', '=='):
+            l, r = kids(e)
+            ne = e['opcode'] == '!='
+            ln = norm(l)
+            if ne and ln.get('kind') == 'DeclRefExpr' and self.ints.get(ln['referencedDecl'].get('id')) == '.selfN' and self.count_of(r, 'other'):
+                return '.neCount'
+            p = self.pair(l, r, self.dacc)
+            if p and ln.get('type', {}).get('qualType') == 'double':
+                return '(%s .%s %s)' % ('.neD' if ne else '.eqD', p[0], p[1])
+            ml, mr = member_call(l), member_call(r)
+            if ne and ml and mr and ml[1] == 'kind' and mr[1] == 'kind' and not ml[3] and not mr[3]:
+                a, b = self.arg_of(ml[2]), self.arg_of(mr[2])
+                if a and b and a[0] == 'self' and b[0] == 'other' and a[1] == b[1]:
+                    return '(.neKindArg %s)' % a[1]
+            if ne and ln.get('kind') == 'CallExpr' and callee_name(ln)[0] == 'strcmp' and norm(r).get('kind') == 'IntegerLiteral' and int(norm(r)['value']) == 0:
+                x, y = kids(ln)[1:]
+                mx, my = member_call(x), member_call(y)
+                if mx and my and mx[1] == 'value' and my[1] == 'value':
+                    a, b = self.arg_of(mx[2]), self.arg_of(my[2])
+                    if a and b and a[0] == 'self' and b[0] == 'other' and a[1] == b[1]:
+                        return '(.strcmpNeArg %s)' % a[1]
+        if k == 'CXXOperatorCallExpr':
+            nm, a = op_call(e)
+            if nm == 'operator!=' and len(a) == 2:
+                ml, mr = member_call(a[0]), member_call(a[1])
+                if ml and mr and ml[1] == 'function' and mr[1] == 'function' and self.side(ml[2]) == 'self' and self.side(mr[2]) == 'other':
+                    return '.neFunc'
+            if nm == 'operator==' and len(a) == 2:
+                x, y = norm(a[0]), norm(a[1])
+                ix = self.iters.get(x.get('referencedDecl', {}).get('id')) if x.get('kind') == 'DeclRefExpr' else None
+                iy = self.iters.get(y.get('referencedDecl', {}).get('id')) if y.get('kind') == 'DeclRefExpr' else None
+                if ix == ('cur', 'other') and iy == ('end', 'other'):
+                    return '(.otherExhausted .idx)' if self.in_loop else '(.otherCountIs .selfN)'
+        if k == 'CallExpr' and callee_name(e)[0] == 'Equal' and len(kids(e)) == 3:
+            x, y = kids(e)[1:]
+            a, b = self.arg_of(x), self.arg_of(y)
+            if a and b and a[0] == 'self' and b[0] == 'other' and a[1] == b[1]:
+                return '(.equalArg %s)' % a[1]
+            fl = accessor(x, lambda q: self.side(q) == 'self'); fr = accessor(y, lambda q: self.side(q) == 'other')
+            if fl and fl == fr:
+                return '(.equalChild %s)' % FLD[fl]
+        self.err('condition not understood (%s)' % k)
+
+    # -- comparator statements
+    def cstmts(self, sts):
+        out = []
+        for st in sts:
+            out += self.cstmt(st)
+        return out
+
+    def block(self, st):
+        return self.cstmts(kids(st) if st.get('kind') == 'CompoundStmt' else [st])
+
+    def cstmt(self, st):
+        k = st.get('kind')
+        if k == 'DeclStmt':
+            for v in kids(st):
+                if v.get('kind') != 'VarDecl' or not kids(v):
+                    self.err('declaration without initialiser')
+                init = kids(v)[0]
+                ty = v.get('type', {}).get('qualType', '')
+                if is_self(init, None) and self.alias is None:
+                    self.alias = v['id']
+                elif ty == 'int' and self.count_of(init, 'self'):
+                    self.ints[v['id']] = '.selfN'
+                elif self.arg_of(init):
+                    self.args[v['id']] = self.arg_of(init)
+                else:
+                    mc = member_call(init)
+                    if mc and mc[1] in ('begin', 'end') and not mc[3] and self.side(mc[2]):
+                        self.iters[v['id']] = ('cur' if mc[1] == 'begin' else 'end', self.side(mc[2]))
+                    else:
+                        self.err('declaration of %s not understood' % v.get('name'))
+            return []
+        if k == 'IfStmt':
+            c = raw_kids(st)
+            if st.get('hasVar'):
+                decl, cond, then = c[0], c[1], c[2]
+                els = c[3] if len(c) > 3 else None
+                v = kids(decl)[0]
+                init = norm(kids(v)[0])
+                tgt = v.get('type', {}).get('qualType', '')
+                src = self.arg_of(init)
+                if not (init.get('kind') == 'CallExpr' and callee_name(init)[0] == 'Cast' and src and src[0] == 'self'):
+                    self.err('condition variable is not Cast<T>(self argument)')
+                if not is_ref_to(kids(norm(cond))[0] if norm(cond).get('kind') == 'CXXMemberCallExpr' else cond, v['id']):
+                    mc = member_call(cond)
+                    if not (mc and is_ref_to(mc[2], v['id'])):
+                        self.err('condition does not test the condition variable')
+                g = '.isNumericArg' if tgt.endswith('NumericExpr') else '.isStringArg' if tgt.endswith('StringLiteral') else None
+                if not g:
+                    self.err('cast target %s' % tgt)
+                self.args[v['id']] = src
+                t = self.block(then)
+                e = self.block(els) if els else []
+                return ['.ite (%s %s) [%s] [%s]' % (g, src[1], ', '.join(t), ', '.join(e))]
+            if len(c) == 2 and is_ret_false(c[1]):
+                return ['.failIf %s' % self.bexp(c[0])]
+            self.err('if statement is not `if (c) return false;`')
+        if k == 'ForStmt':
+            init, condvar, cond, inc, body = raw_kids(st)
+            if self.in_loop:
+                self.err('nested loop')
+            cn = norm(cond)
+            if init.get('kind') == 'DeclStmt':
+                vs = kids(init)
+                if not (len(vs) == 1 and vs[0].get('type', {}).get('qualType') == 'int' and norm(kids(vs[0])[0]).get('kind') == 'IntegerLiteral'
+                        and int(norm(kids(vs[0])[0])['value']) == 0):
+                    self.err('loop does not start with `int i = 0`')
+                iv = vs[0]['id']
+                if not (cn.get('kind') == 'BinaryOperator' and cn.get('opcode') == '<' and is_ref_to(kids(cn)[0], iv)):
+                    self.err('loop condition is not `i < n`')
+                bound = self.iexp(kids(cn)[1])
+                i2 = norm(inc)
+                if not (i2.get('kind') == 'UnaryOperator' and i2.get('opcode') == '++' and is_ref_to(kids(i2)[0], iv)):
+                    self.err('loop increment is not ++i')
+                self.ints[iv] = '.idx'
+            else:
+                # iterator idiom: for (; i != iend; ++i, ++j) with i/iend over self and j over other
+                nm, a = op_call(cond)
+                curs = {v: t for v, t in self.iters.items()}
+                def it(x):
+                    x = norm(x)
+                    return curs.get(x.get('referencedDecl', {}).get('id')) if x.get('kind') == 'DeclRefExpr' else None
+                if not (init.get('kind') is None and nm == 'operator!=' and it(a[0]) == ('cur', 'self') and it(a[1]) == ('end', 'self')):
+                    self.err('iterator loop is not `for (; i != iend; …)` over the left operand')
+                i2 = norm(inc)
+                incs = kids(i2) if i2.get('kind') == 'BinaryOperator' and i2.get('opcode') == ',' else [i2]
+                seen = set()
+                for x in incs:
+                    n2, a2 = op_call(x)
+                    if n2 != 'operator++' or len(a2) != 1 or it(a2[0]) not in (('cur', 'self'), ('cur', 'other')):
+                        self.err('iterator loop increment')
+                    seen.add(it(a2[0]))
+                if seen != {('cur', 'self'), ('cur', 'other')}:
+                    self.err('iterator loop must advance both iterators')
+                bound = '.selfN'
+            self.in_loop = True
+            b = self.block(body)
+            self.in_loop = False
+            return ['.forRange %s [%s]' % (bound, ', '.join(b))]
+        if k == 'ReturnStmt':
+            return ['.ret %s' % self.bexp(kids(st)[0])]
+        self.err('statement %s not understood' % k)
+
+    # -- hasher
+    def hval(self, e):
+        d = self.dacc(e)
+        if d and d[0] == 'other':
+            return '(.dAt .%s %s)' % (d[1], d[2])
+        a = self.arg_of(e)
+        if a and a[0] == 'other':
+            return '(.argAt %s)' % a[1]
+        mc = member_call(e)
+        if mc and mc[1] == 'arg' and not mc[3] and self.side(mc[2]) == 'other':
+            return '.childArg'
+        if mc and mc[1] == 'name' and not mc[3]:
+            m2 = member_call(mc[2])
+            if m2 and m2[1] == 'function' and self.side(m2[2]) == 'other':
+                return '.funcName'
+        n = norm(e)
+        if n.get('kind') == 'UnaryOperator' and n.get('opcode') == '*' and is_ref_to(kids(n)[0], self.charvar):
+            return '(.charAt .idx)'
+        self.err('hashed value not understood')
+
+    def hcall(self, e):
+        """HashCombine(hash, v) -> hval text; Hash(e[, v]) -> list of leading values"""
+        e = norm(e)
+        if e.get('kind') == 'CallExpr':
+            nm, _ = callee_name(e)
+            a = kids(e)[1:]
+            if nm == 'HashCombine' and len(a) == 2 and is_ref_to(a[0], self.hashvar):
+                return self.hval(a[1])
+        self.err('not `HashCombine(hash, v)`')
+
+    def hstmts(self, sts):
+        out = []
+        for st in sts:
+            if st.get('kind') in WRAP:
+                st = norm(st)
+            k = st.get('kind')
+            if k == 'DeclStmt':
+                for v in kids(st):
+                    init = kids(v)[0]
+                    ni = norm(init)
+                    if self.hashvar is None and ni.get('kind') == 'CallExpr' and callee_name(ni)[0] == 'Hash':
+                        a = kids(ni)[1:]
+                        if not is_ref_to(a[0], self.param):
+                            self.err('Hash(...) of something else than the parameter')
+                        self.hashvar = v['id']
+                        out += ['.combine %s' % self.hval(x) for x in a[1:]]
+                    elif v.get('type', {}).get('qualType') == 'int' and self.count_of(init, 'other'):
+                        self.ints[v['id']] = '.selfN'
+                    else:
+                        self.err('declaration of %s not understood' % v.get('name'))
+            elif k == 'BinaryOperator' and st.get('opcode') == '=' and is_ref_to(kids(st)[0], self.hashvar):
+                out.append('.combine %s' % self.hcall(kids(st)[1]))
+            elif k == 'ForStmt':
+                init, condvar, cond, inc, body = raw_kids(st)
+                if self.in_loop or init.get('kind') != 'DeclStmt':
+                    self.err('loop shape')
+                vs = kids(init)
+                cn = norm(cond)
+                i2 = norm(inc)
+                v0 = vs[0]
+                t0 = v0.get('type', {}).get('qualType', '')
+                if t0 == 'int':
+                    if int(norm(kids(v0)[0]).get('value', -1)) != 0:
+                        self.err('loop does not start at 0')
+                    for v in vs[1:]:
+                        if v.get('type', {}).get('qualType') == 'int' and self.count_of(kids(v)[0], 'other'):
+                            self.ints[v['id']] = '.selfN'
+                        else:
+                            self.err('loop declares %s' % v.get('name'))
+                    if not (cn.get('kind') == 'BinaryOperator' and cn.get('opcode') == '<' and is_ref_to(kids(cn)[0], v0['id'])
+                            and self.iexp(kids(cn)[1]) == '.selfN' and i2.get('kind') == 'UnaryOperator' and i2.get('opcode') == '++' and is_ref_to(kids(i2)[0], v0['id'])):
+                        self.err('index loop is not `for (i = 0; i < n; ++i)` with n the argument/breakpoint count')
+                    self.ints[v0['id']] = '.idx'
+                    count = '.selfN'
+                elif t0 == 'const char *':
+                    mc = member_call(kids(v0)[0])
+                    if not (len(vs) == 1 and mc and mc[1] == 'value' and self.side(mc[2]) == 'other'):
+                        self.err('character loop does not start at s.value()')
+                    d = norm(cond)
+                    if not (d.get('kind') == 'UnaryOperator' and d.get('opcode') == '*' and is_ref_to(kids(d)[0], v0['id'])
+                            and i2.get('kind') == 'UnaryOperator' and i2.get('opcode') == '++' and is_ref_to(kids(i2)[0], v0['id'])):
+                        self.err('character loop is not `for (p = s.value(); *p; ++p)`')
+                    self.charvar = v0['id']
+                    count = '.strlen'
+                else:
+                    if len(vs) != 2:
+                        self.err('iterator loop declares %d variables' % len(vs))
+                    m0, m1 = member_call(kids(vs[0])[0]), member_call(kids(vs[1])[0])
+                    if not (m0 and m1 and m0[1] == 'begin' and m1[1] == 'end' and self.side(m0[2]) == 'other' and self.side(m1[2]) == 'other'):
+                        self.err('iterator loop is not over e.begin() .. e.end()')
+                    nm, a = op_call(cond)
+                    n2, a2 = op_call(inc)
+                    if not (nm == 'operator!=' and is_ref_to(a[0], vs[0]['id']) and is_ref_to(a[1], vs[1]['id']) and n2 == 'operator++' and is_ref_to(a2[0], vs[0]['id'])):
+                        self.err('iterator loop is not `for (i = begin, end; i != end; ++i)`')
+                    self.iters[vs[0]['id']] = ('cur', 'other')
+                    count = '.selfN'
+                self.in_loop = True
+                b = self.hstmts(kids(body) if body.get('kind') == 'CompoundStmt' else [body])
+                self.in_loop = False
+                out.append('.forRange %s [%s]' % (count, ', '.join(b)))
+            elif k == 'ReturnStmt':
+                r = norm(kids(st)[0])
+                if is_ref_to(r, self.hashvar):
+                    pass
+                else:
+                    out.append('.combine %s' % self.hcall(r))
+            else:
+                self.err('statement %s not understood' % k)
+        return out
+
+
+def cmp_prog(d):
+    t = LoopTr(d, False)
+    sts = kids(body_of(d))
+    out = t.cstmts(sts)
+    if not out or not out[-1].startswith('.ret'):
+        raise TranslateError('does not end in a return')
+    return ('prog', out)
+
+
+def hash_prog(d):
+    t = LoopTr(d, True)
+    sts = kids(body_of(d))
+    if not sts or sts[-1].get('kind') != 'ReturnStmt':
+        raise TranslateError('does not end in a return')
+    return ('prog', t.hstmts(sts))
+
+
 def cmp_body(d):
     nm = d.get('name')
     st = kids(body_of(d))
@@ -341,7 +718,10 @@ def cmp_body(d):
         return ('conj', atoms)
     except TranslateError as ex:
         if nm in OPAQUE and nm != 'VisitStringLiteral':
-            return ('opaque', OPAQUE[nm], sx_generic(d))
+            try:
+                return cmp_prog(d)
+            except TranslateError as ex2:
+                raise TranslateError('ExprComparator::%s: %s' % (nm, ex2))
         raise TranslateError('ExprComparator::%s: %s' % (nm, ex))
 
 
@@ -394,7 +774,10 @@ def hash_body(d, hasher_cls_ids):
         return ('chain', H(kids(st[-1])[0]))
     except TranslateError as ex:
         if nm in OPAQUE:
-            return ('opaque', OPAQUE[nm], sx_generic(d))
+            try:
+                return hash_prog(d)
+            except TranslateError as ex2:
+                raise TranslateError('ExprHasher::%s: %s' % (nm, ex2))
         raise TranslateError('ExprHasher::%s: %s' % (nm, ex))
 
 
@@ -619,7 +1002,7 @@ def main():
             elif b[0] == 'chain':
                 t = '.chain [%s]' % ', '.join(b[1])
             else:
-                t = '.opaque ' + b[1]
+                t = '.prog [%s]' % ', '.join(b[1])
             L.append('  | %s => %s' % (lk, t))
         L.append('')
         L.append('/-- handler names, for messages -/')
